@@ -7,6 +7,6 @@ CONSTANT MaxAdds
 McBuiltinIf == <<"logger", "iterator">>
 McFixed == (1 :> [size |-> 4, managed |-> 0]) @@ (30 :> [size |-> 16, managed |-> 1])
 McProbe == {0, 1, 2, 8, 9, 10, 11, 12, 13, 14, 20, 21, 22, 23, 30, 40, 41, 42, 43, 50}
-Bound == Len(handed) <= MaxAdds
-View == <<reg, handed, ifs, dyn, metaC, genC>>
+Bound == Cardinality(DOMAIN reg) - Cardinality(DOMAIN BuiltinReg) <= MaxAdds
+View == <<reg, ifs, dyn, metaC, genC>>
 =============================================================================
